@@ -507,7 +507,11 @@ func subWriterFail() mon.Sub {
 						c.Fail("writer/sends-after-failure/history", fmt.Sprintf("destination call %d failed but %d more calls followed during the same history", j, len(rec.Calls)-callsAtFailure), det)
 						return
 					}
-					for _, fu := range followups {
+					// (the follow-ups start at a different operation from case to case: what comes FIRST
+					// after the failure - a flush with nothing new written, say - matters)
+					rot := (c.I + j + short + 1) % len(followups)
+					for fi := range followups {
+						fu := followups[(fi+rot)%len(followups)]
 						before := len(rec.Calls)
 						r := wops.Apply(w, fu, feed, 9)
 						trace = append(trace, fmt.Sprintf("follow-up %s -> n=%d err=%v", r.Op, r.N, r.Err))
@@ -524,7 +528,11 @@ func subWriterFail() mon.Sub {
 					// ResetOp moves on to the next message on the SAME destination (the documented quick reset keeps
 					// everything but the unflushed fragments): the broken destination is still broken
 					w.ResetOp(ws.OpBinary)
-					for _, fu := range []wops.Op{{Kind: wops.Write, Sel: 1}, {Kind: wops.Write, Sel: 6}, {Kind: wops.Flush}} {
+					after := []wops.Op{{Kind: wops.Write, Sel: 1}, {Kind: wops.Write, Sel: 6}, {Kind: wops.Flush}}
+					if rot%2 == 1 {
+						after = []wops.Op{{Kind: wops.Flush}, {Kind: wops.FlushFragment}, {Kind: wops.Write, Sel: 1}, {Kind: wops.Flush}}
+					}
+					for _, fu := range after {
 						before := len(rec.Calls)
 						r := wops.Apply(w, fu, feed, 9)
 						trace = append(trace, fmt.Sprintf("after ResetOp: %s -> n=%d err=%v", r.Op, r.N, r.Err))
@@ -562,7 +570,7 @@ func main() {
 		Level:    "fault_enumeration",
 		Rule: "fault enumeration: (a) every valid complete frame stream up to depth 3 (quick) / 4 (thorough) on both sides, cut at EVERY byte offset in three flavours (EOF, final data together with EOF, injected transport error) through Reader, Reader+ControlFrameHandler, Reader+Discard, ReadMessage, ReadData, Read*Text, Read*Binary and NextReader, plus random longer streams at 40 random offsets, plus three stream shapes with messages above 1 MiB cut at frame starts, header ends, the 1 MiB mark and payload ends; oracle = the uncut run of the same stream (events must be a prefix), the message-boundary set of the reference reassembly (clean EOF only there), control payloads never shortened (callbacks, collected messages, pongs on the wire); " +
 			"(a') the same streams (and random ones with payloads up to 70000 bytes, and frames of 1 MiB .. 2 MiB+5 cut around the header, the 1 MiB mark and the payload end) cut at every offset through the frame-level decoders: a ws.ReadFrame read-until-EOF loop and a ws.ReadHeader + exact payload read loop: frames returned are exactly the whole frames before the cut, io.EOF only on a frame boundary, an injected error never turns into io.EOF; " +
-			"(b) upgrade requests and 101 responses cut at every offset of the head in the three flavours: error, no 101, no buffer; every destination write call of the handshake (request or response, write buffers 16..default) failing as error / short write / sticky: error returned; (c) every writer history of depth 2 (quick) / 3 (thorough) over the 30-op alphabet + Flush for 4 configurations with the destination failing at every call index as plain error or short write (0/1/3 bytes) + error, then 7 follow-up operations, then ResetOp (same destination) + Write/Write/Flush: each returns the error (ReadFrom's return is left open) and the destination sees no further call. distinct = (entry, cut frame kind/position, flavour, boundary, stream shape) / (config, failing call, mode, history).",
+			"(b) upgrade requests and 101 responses cut at every offset of the head in the three flavours: error, no 101, no buffer; every destination write call of the handshake (request or response, write buffers 16..default) failing as error / short write / sticky: error returned; (c) every writer history of depth 2 (quick) / 3 (thorough) over the 30-op alphabet + Flush for 4 configurations with the destination failing at every call index as plain error or short write (0/1/3 bytes) + error, then 7 follow-up operations (starting at a different one from case to case, so that each kind also comes first after the failure), then ResetOp (same destination) + Write/Write/Flush or Flush/FlushFragment/Write/Flush: each returns the error (ReadFrom's return is left open) and the destination sees no further call. distinct = (entry, cut frame kind/position, flavour, boundary, stream shape) / (config, failing call, mode, history).",
 		Assumptions: []string{"the uncut run itself is checked by C04", "ReadFrom's return value after a failure is OPEN (the statement names writes and flushes); 'no further bytes' is enforced for it too"},
 		Subs:        []mon.Sub{subCutEnum(), subCutRandom(), subFrameCutEnum(), subFrameCutRandom(), subFrameCutLarge(), subReaderCutLarge(), subHandshakeCut(), subHandshakeWriteFault(), subWriterFail()},
 	})
